@@ -57,7 +57,11 @@ func (e *kvElection) watchLoop(ctx context.Context) {
 				// When watcher closes, check if key still exists
 				// If not, trigger re-election
 				if !e.IsLeader() {
-					go e.checkKeyAndReelect(ctx)
+					e.wg.Add(1)
+					go func() {
+						defer e.wg.Done()
+						e.checkKeyAndReelect(ctx)
+					}()
 				}
 				updates = func() <-chan Entry { return nil }
 				continue
@@ -76,6 +80,17 @@ func (e *kvElection) watchLoop(ctx context.Context) {
 	}
 }
 
+// startAcquisition runs an acquisition round on a goroutine that Stop waits for, like the
+// other goroutines of the election: a round that has passed its stopped/context checks
+// must not go on to issue its store operation after Stop has returned.
+func (e *kvElection) startAcquisition(ctx context.Context) {
+	e.wg.Add(1)
+	go func() {
+		defer e.wg.Done()
+		e.attemptAcquireWithRetry(ctx)
+	}()
+}
+
 // checkKeyAndReelect checks if the key exists and triggers re-election if it doesn't.
 // This is a fallback for cases where NATS watchers don't reliably send deletion events.
 func (e *kvElection) checkKeyAndReelect(ctx context.Context) {
@@ -92,7 +107,7 @@ func (e *kvElection) checkKeyAndReelect(ctx context.Context) {
 				zap.Error(err),
 			)...,
 		)
-		go e.attemptAcquireWithRetry(ctx)
+		e.startAcquisition(ctx)
 		return
 	}
 
@@ -102,7 +117,7 @@ func (e *kvElection) checkKeyAndReelect(ctx context.Context) {
 		log.Debug("key_empty_triggering_reelection",
 			e.logWithContext(ctx)...,
 		)
-		go e.attemptAcquireWithRetry(ctx)
+		e.startAcquisition(ctx)
 		return
 	}
 
@@ -167,7 +182,7 @@ func (e *kvElection) handleWatchEvent(entry Entry) {
 				zap.String("key", e.key),
 			)...,
 		)
-		go e.attemptAcquireWithRetry(e.ctx)
+		e.startAcquisition(e.ctx)
 		return
 	}
 
@@ -179,7 +194,7 @@ func (e *kvElection) handleWatchEvent(entry Entry) {
 				zap.String("key", e.key),
 			)...,
 		)
-		go e.attemptAcquireWithRetry(e.ctx)
+		e.startAcquisition(e.ctx)
 		return
 	}
 
